@@ -111,6 +111,23 @@ CHECKS["C11"] = dict(
          "non-injective) run through lou_translate/lou_backTranslate/lou_charToDots/lou_dotsToChar against both extracted engines.",
     design="4/C11", technique="Coq proof of round trips on the forward/backward engine models + differential correspondence on generated one-to-one tables")
 
+CHECKS["C06"] = dict(
+    text="Machine-checked proof (Coq) on the multipass stage model (literal tests with look-back and replace brackets; literal/omit/copy "
+         "actions): the pass chain built with the REGENERATED insertion condition is the rule list ordered by decreasing literal length "
+         "then definition; the scanner applies the first chain rule whose test matches; accepted matches are nested ranges that never lie "
+         "before the position; a literal action emits the matched prefix verbatim, then the replacement, and continues after the "
+         "bracketed part; map composition is composition; the driver without stages is the main pass and an empty stage copies. Tied "
+         "to the code by lou_translate / lou_backTranslate (dotsIO output, raw composed map, rule trace) on generated tables with 0-3 "
+         "rules per stage in both directions against the extracted forward and backward drivers.",
+    design="4/C06", technique="Coq proof on stage scanners and map composition over comparators regenerated from the C source + differential correspondence in both directions")
+CHECKS["C03"] = dict(
+    text="Machine-checked proof (Coq): the forward stage scanner terminates for ANY rules, input and capacity within 2*length+1 iterations; "
+         "the backward stage scanner, the two main-pass engines and the whole forward driver never exhaust their fuel; hyphenation "
+         "fallbacks are strictly shorter and the automaton step's fuel suffices. Tied to the code by per-site loop-head counters "
+         "(hook) compared with the proved bound on tables generated to provoke non-progress, with a tick budget that aborts a "
+         "runaway call. Partial: pattern.c (match/backmatch) is observed through the budget only.",
+    design="4/C03", technique="Coq termination proofs (decreasing measures) on the loop models + tick-count correspondence with budget watchdog")
+
 PENDING = {}
 
 
